@@ -33,6 +33,11 @@ SEARCH_PATH = [ROOT + "/other", ROOT + "/sub"]
 DIRS = ["", "sub/", "sub/deep/", "other/"]
 
 
+def fname(m):
+    """file name of a model in the spelling the world uses (a symlinked root has two spellings)"""
+    return SIMFS.canon(getattr(m, "_tx_filename", None))
+
+
 class RepoWorld(World):
     def __init__(self):
         World.__init__(self)
@@ -81,6 +86,11 @@ def gen_repo_world(t, family):
         SIMFS.files[p] = ""  # so that glob truth can be computed while generating
     w.main = paths[0]
     w.recursive = t.chance(1, 2, "recursive-glob") and family != "rrel"  # a grammar RREL takes no glob arguments
+    # the root directory may be a symbolic link: every path of the world keeps the link spelling, os.path.realpath()
+    # would give another spelling of the same files - one file is still one model
+    w.symlinked = t.chance(1, 5, "root-directory-is-a-symlink")
+    if w.symlinked:
+        SIMFS.aliases = [(ROOT, "/sim/real-w4")]
     counters = {"d": 0, "b": 0, "u": 0, "w": 0}
 
     def fresh(k):
@@ -325,7 +335,7 @@ class InnerPostponer:
     def __call__(self, obj, attr, obj_ref):
         m = textx.get_model(obj)
         if obj is not m:
-            key = (getattr(m, "_tx_filename", None), obj_ref.position)
+            key = (fname(m), obj_ref.position)
             per_model = self.attempts.setdefault(m, {})
             n = per_model[key] = per_model.get(key, 0) + 1
             # (not while a reference is scripted to stay unresolvable: the resolver stops at the first round without
@@ -455,12 +465,12 @@ class Sys:
 
         def defproc(o):
             if self.fail_objproc_for is not None and \
-                    (getattr(textx.get_model(o), "_tx_filename", None) or "<anon>") == self.fail_objproc_for:
+                    (fname(textx.get_model(o)) or "<anon>") == self.fail_objproc_for:
                 boom()
 
         def mproc(m, mm):
             if self.fail_modelproc_for is not None and \
-                    (getattr(m, "_tx_filename", None) or "<anon>") == self.fail_modelproc_for:
+                    (fname(m) or "<anon>") == self.fail_modelproc_for:
                 boom()
 
         self.mm.register_obj_processors({"Def": defproc})
@@ -487,7 +497,7 @@ class Sys:
             self.ctx.ev("glob", path, [os.path.relpath(x, ROOT) for x in extra])
 
     def _on_parsed(self, model):
-        self.parsed.append(getattr(model, "_tx_filename", None))
+        self.parsed.append(fname(model))
 
     def all_models(self, model=None):
         if hasattr(self.mm, "_tx_model_repository"):
@@ -528,7 +538,7 @@ def check_models(ctx, prop_ok, sysm, w, model, F, cache_objs, new, fam, tag, ano
     by_file = {}
     if am is not None:
         for m in am:
-            fn = getattr(m, "_tx_filename", None)
+            fn = fname(m)
             if fn is None:
                 continue
             if fn in by_file and by_file[fn] is not m:
@@ -998,7 +1008,7 @@ def op_corrupt_cycle(ctx, prop, sysm, w, F, params, cache, famtag, global_repo, 
         for f, m in cache.items():
             rep = getattr(m, "_tx_model_repository", None)
             if rep is not None:
-                names = {getattr(x, "_tx_filename", None) for x in rep.all_models}
+                names = {fname(x) for x in rep.all_models}
                 if not names <= set(cache) | {None} | set(sysm.cache2):
                     ctx.violate("C18", "surviving-repository-clean", fclass,
                                 f"repository of cached {os.path.relpath(f, ROOT)} holds models of the failed attempt")
@@ -1025,7 +1035,7 @@ def op_bulk(ctx, prop, sysm, w, cache, famtag, global_repo, t, wrap):
         textx.clear_language_registrations()
         textx.register_language("lang-m", pattern="*.m", metamodel=sysm.mm)
     repo = sysm.caller_repo
-    have = {getattr(m, "_tx_filename", None) for m in repo.all_models}
+    have = {fname(m) for m in repo.all_models}
     todo = [f for f in w.gr_files if f not in have]
     fail = prop == "C18" and todo and t.chance(2, 3, "bulk-fails")
     X = kind = target = None
@@ -1098,7 +1108,7 @@ def op_bulk(ctx, prop, sysm, w, cache, famtag, global_repo, t, wrap):
     # ---- complete and consistent: one model per file, references point into them
     by_file = {}
     for m in repo.all_models:
-        fn = getattr(m, "_tx_filename", None)
+        fn = fname(m)
         if fn in by_file and by_file[fn] is not m:
             ctx.violate("C17", "single-model-per-file", "bulk/" + famtag, f"two models for {fn} in the caller's repository")
         by_file[fn] = m
@@ -1173,7 +1183,7 @@ def op_builtin_dup(ctx, w, t, wrap, famtag):
                 accept.append((f, lc))
         else:
             accept.append((f, lc))
-    got = (err.get("filename"), (err.get("line"), err.get("col")))
+    got = (SIMFS.canon(err.get("filename")), (err.get("line"), err.get("col")))
     if got not in accept:
         clause = "filename" if not any(got[0] == a[0] for a in accept) else "line-col"
         ctx.violate("C28", clause, "builtin-dup/" + ("anon/" if anon else "") + famtag,
@@ -1241,7 +1251,7 @@ def check_location(ctx, w, X, kind, target, err, fclass, anon_main=None, anon_al
             else:
                 acc2.append((f, lc))
         accept = acc2
-    got = (err.get("filename"), (err.get("line"), err.get("col")))
+    got = (SIMFS.canon(err.get("filename")), (err.get("line"), err.get("col")))
     if got not in accept:
         mixed = any(got[0] == a[0] for a in accept) or any(got[1] == a[1] for a in accept)
         clause = "filename" if not any(got[0] == a[0] for a in accept) else "line-col"
